@@ -113,9 +113,10 @@ def reqs(objs):
     return {n: {r.vname for r in o.required} for n, o in objs.items()}
 
 
-def _one(skel, toppure, edges, res, ctor=False):
+def _one(skel, toppure, edges, res, ctor=False, verbose=None):
     rep = {'skeleton': skel, 'toppure': toppure,
-           'edges': [list(e) for e in edges], 'ctor': ctor}
+           'edges': [list(e) for e in edges], 'ctor': ctor,
+           'verbose': verbose}
     if ctor:
         built = build_ctor(skel, toppure, edges)
         if built is None:
@@ -125,9 +126,12 @@ def _one(skel, toppure, edges, res, ctor=False):
         top, objs, member = build(skel, toppure, edges)
     before = reqs(objs)
     msgs = []
+    if verbose == 'attr':
+        top.verbose = True
+    kw = {'verbose': True} if verbose == 'arg' else {}
     with seq.captured():
         try:
-            r1 = top.sanitize()
+            r1 = top.sanitize(**kw)
         except Exception as exc:
             r1 = exc
     after = reqs(objs)
@@ -150,7 +154,7 @@ def _one(skel, toppure, edges, res, ctor=False):
             "nothing had to be removed anywhere in the tree"))
     with seq.captured():
         try:
-            r2 = top.sanitize()
+            r2 = top.sanitize(**kw)
         except Exception as exc:
             r2 = exc
     if r2 is not True:
@@ -169,14 +173,16 @@ def _one(skel, toppure, edges, res, ctor=False):
         seq.add_violation(res, key, "%s | skeleton %s %s top=%s edges (a,b: b "
                           "requires a) %s" % (
                               m + (' [jobs created with shared required= set '
-                                   'objects]' if ctor else ''),
+                                   'objects]' if ctor else '')
+                              + (' [verbose: %s]' % verbose if verbose
+                                 else ''),
                               skel, SKELETONS[skel],
                               'PureScheduler' if toppure else 'Scheduler',
                               sorted(edges)), rep)
 
 
-def one(skel, toppure, edges, res, ctor=False):
-    _, hang = seq.guarded(_one, skel, toppure, edges, res, ctor)
+def one(skel, toppure, edges, res, ctor=False, verbose=None):
+    _, hang = seq.guarded(_one, skel, toppure, edges, res, ctor, verbose)
     if hang:
         seq.add_violation(res, 'c16:hang', "%s | skeleton %s edges %s"
                           % (hang, skel, sorted(edges)),
@@ -197,6 +203,9 @@ def run_item(item):
         one(item['skel'], item['toppure'], edges, res)
         if len(edges) >= 2:
             one(item['skel'], item['toppure'], edges, res, ctor=True)
+        if len(edges) <= 2:
+            for vb in ('arg', 'attr'):
+                one(item['skel'], item['toppure'], edges, res, verbose=vb)
         n += 1
         if n == 1 and lo == 0 and item['r'] == 2 and not res['samples']:
             res['samples'].append({'skeleton': SKELETONS[item['skel']],
@@ -232,7 +241,7 @@ def items(tier, seed):
 def replay(rep):
     res = seq.new_result()
     one(rep['skeleton'], rep['toppure'], [tuple(e) for e in rep['edges']], res,
-        rep.get('ctor', False))
+        rep.get('ctor', False), rep.get('verbose'))
     return sorted(v['msg'] for v in res['violations'])
 
 
